@@ -33,7 +33,7 @@ def indep_bytes_to_human(value):
 
 class Session:
     def __init__(self, graph, root, *, seed=0, min_length=32, max_length=128, flavour='plain', concurrent=3,
-                 cipher=None, hashing=None, cache=None, store=None, backend_factory=None, foreign=None):
+                 cipher=None, hashing=None, cache=None, store=None, backend_factory=None, foreign=None, prebuilt=None):
         self.graph, self.root, self.seed = graph, Path(root), seed
         self.rng = random.Random(seed)
         self.src = self.root / 'src'
@@ -53,8 +53,15 @@ class Session:
             fk = lambda: {'encryption': {'kdf': {'name': 'blake2b'}}}     # noqa: E731
             pwd = lambda t: (b'pw-' + t + b'-').ljust(64, b'#')           # noqa: E731
             st['encryption']['kdf'] = {'name': 'blake2b'}
-        w.init('a', pwd(b'a'), st, cache=cache_of('a'))
-        if graph == 'plain':
+        if prebuilt is not None:
+            # a repository and keys made elsewhere (e.g. through the command line): {user: (password, key file bytes)}; objects already in `store`
+            for u_, (pw_, key_) in prebuilt.items():
+                w.users[u_] = harness.User(u_, pw_, key_, cache_of(u_))
+        else:
+            w.init('a', pwd(b'a'), st, cache=cache_of('a'))
+        if prebuilt is not None:
+            pass
+        elif graph == 'plain':
             w.users['b'] = harness.User('b', None, None, cache_of('b'))
         elif graph == 'same':
             w.users['b'] = harness.User('b', w.users['a'].password, w.users['a'].key, cache_of('b'))
